@@ -19,7 +19,7 @@ MEMBERS = [(r'^fcalls\|nano::function_t', 'nv_fn_fcalls'), (r'^gcalls\|nano::fun
            (r'^value_test\|nano::solver_state_t', '@nondet'),
            (r'^(lpNorm|dot|squaredNorm|norm|size)\|.*tensor', '@nondet'), (r'^all_finite\|.*tensor', 'nv_vec_all_finite')] + list(common.MEMBERS)
 CALLS = [(r'^ctor\|nano::solver_state_t\|void \(const nano::function_t &', 'nv_bstate_make({&0}, {&1})'),
-         (r'^(sqrt)\|', 'nv_sqrt({0})'), (r'^pow\|', 'nv_pow({0}, {1})'), (r'^exp\|', 'nv_exp({0})'),
+         (r'^(sqrt)\|', 'nv_sqrt_plain({0})'), (r'^pow\|', 'nv_pow({0}, {1})'), (r'^exp\|', 'nv_exp({0})'),
          (r'^epsilon\|double \(\)', 'nv_dbl_epsilon()'), (r'^max\|double \(\)', 'nv_dbl_max()'),
          (r'^epsilon0\|', 'nv_dbl_epsilon()')] + list(common.CALLS)
 
@@ -45,23 +45,34 @@ def vgrad_hook(P, n):
     return f'nv_fn_vgrad1({fobj}, {vec(args[0])})'
 
 
+# file-local helpers of asga.cpp: pure by signature (scalars by value, vectors by const reference); results unknown
+ASGA_CALLS = [(r'^solve_sk1\|', '@nondet'), (r'^lsearch_done\|', '@nondet')]
+
+
 def body(cname, tu, flt, extra_opaque=(), extra_members=(), extra_calls=(), extra_types=(), select=None):
     vt = vectrack.VecTrack()
     f = Fn(cname, tu, 'do_minimize', flt=flt, select=select, self_struct='struct nv_solver', types=list(extra_types) + TYPES,
-           calls=list(extra_calls) + CALLS, members=list(extra_members) + MEMBERS, hooks=[vgrad_hook] + list(common.HOOKS),
+           calls=list(extra_calls) + CALLS, members=list(extra_members) + MEMBERS, hooks=[vgrad_hook, vt.expr_hook] + list(common.HOOKS),
            stmt_hooks=[vt.stmt_hook], opaque=list(common.OPAQUE) + list(extra_opaque), aggregates=['struct nv_tuple_b_f64'])
     return f
 
 
 BODIES = [('sgm_do_minimize', 'src/solver/sgm.cpp', 'solver_sgm_t::do_minimize', {}),
-          ('ellipsoid_do_minimize', 'src/solver/ellipsoid.cpp', 'solver_ellipsoid_t::do_minimize', {'extra_members': [(r'^dot\|Eigen::', 'nv_dot()')]}),
+          ('ellipsoid_do_minimize', 'src/solver/ellipsoid.cpp', 'solver_ellipsoid_t::do_minimize', {'extra_members': [(r'^dot\|Eigen::', 'nv_dot()')], 'extra_calls': [(r'^(sqrt)\|', 'nv_sqrt({0})')]}),
           ('cocob_do_minimize', 'src/solver/cocob.cpp', 'solver_cocob_t::do_minimize', {}),
-          ('osga_do_minimize', 'src/solver/osga.cpp', 'solver_osga_t::do_minimize', {'extra_opaque': [r'proxy_t']})]
+          ('osga_do_minimize', 'src/solver/osga.cpp', 'solver_osga_t::do_minimize', {'extra_opaque': [r'proxy_t']}),
+          ('pgm_do_minimize', 'src/solver/universal.cpp', 'solver_pgm_t::do_minimize', {}),
+          ('dgm_do_minimize', 'src/solver/universal.cpp', 'solver_dgm_t::do_minimize', {}),
+          ('fgm_do_minimize', 'src/solver/universal.cpp', 'solver_fgm_t::do_minimize', {}),
+          ('asga2_do_minimize', 'src/solver/asga.cpp', 'solver_asga2_t::do_minimize', {'extra_calls': ASGA_CALLS}),
+          ('asga4_do_minimize', 'src/solver/asga.cpp', 'solver_asga4_t::do_minimize', {'extra_calls': ASGA_CALLS}),
+          ('pdsgm_do_minimize', 'src/solver/pdsgm.cpp', 'solver_pdsgm_t::do_minimize', {'extra_opaque': [r'model_t']})]
 
 
 def targets():
     ts = [Target('solver_done_nonls', [common.fn_done()], H, enforce='solver_done', defines=['NV_C02'],
                  note='solver_t::done re-proved with a separate gradient-evaluation counter')]
     for cname, tu, flt, kw in BODIES:
-        ts.append(Target(cname, [body(cname, tu, flt, **kw), common.fn_done()], H, replace=['solver_done'], defines=['NV_C02']))
+        defs = ['NV_C02'] + (['NV_LS_MAX=1000'] if cname.startswith('asga') else [])   # asga::lsearch_max_iters in [10, 1000]
+        ts.append(Target(cname, [body(cname, tu, flt, **kw), common.fn_done()], H, replace=['solver_done'], defines=defs))
     return ts
